@@ -1265,4 +1265,788 @@ theorem addBody_obliv (d : BDir) (anc) : Obliv (addBody d anc) := by
   split; · exact addRequest_obliv d _ ts c
   split; · exact addResponse_obliv d _ ts c
   rfl
+/-! ### inserting a declared tag after the declared ones -/
+
+def ins (new : TagM) (ts : List TagM) : List TagM :=
+  ts.filter (·.declared) ++ new :: ts.filter (fun t => !t.declared)
+
+def insC (new : TagM) (c : Cat) : Cat := setTags (ins new c.tags) c
+
+theorem obliv_tags {F : Cat → R Cat} (h : Obliv F) {c c' : Cat} (hs : F c = .ok c') : c'.tags = c.tags := by
+  have := h c.tags c
+  have e : setTags c.tags c = c := rfl
+  rw [e, hs] at this
+  simp only [Except.map] at this
+  injection this with this
+  rw [this]; rfl
+
+theorem obliv_sim {F : Cat → R Cat} (h : Obliv F) (new : TagM) {c c' : Cat} (hs : F c = .ok c') :
+    F (insC new c) = .ok (insC new c') := by
+  unfold insC
+  rw [h, hs, obliv_tags h hs]; rfl
+
+theorem find_ins {new : TagM} {ts : List TagM} (hp : Part ts) (m : Bytes) (hm : new.name ≠ m) :
+    (ins new ts).find? (·.name == m) = ts.find? (·.name == m) := by
+  have : (new.name == m) = false := by simpa using hm
+  conv => rhs; rw [← hp]
+  simp only [ins, List.find?_append, List.find?_cons, this]
+
+theorem getTag_ins {new : TagM} {c : Cat} (hp : Part c.tags) (m : Bytes) (hm : new.name ≠ m) :
+    (insC new c).getTag m = c.getTag m := find_ins hp m hm
+
+theorem ins_map {new : TagM} {g : TagM → TagM} (hg : KeepT g) (hn : g new = new) (ts : List TagM) :
+    ins new (ts.map g) = (ins new ts).map g := by
+  simp only [ins, filter_decl_map hg, filter_undecl_map hg, List.map_append, List.map_cons, hn]
+
+theorem ins_append {new : TagM} (ts : List TagM) {a : TagM} (ha : a.declared = false) :
+    ins new (ts ++ [a]) = ins new ts ++ [a] := by
+  simp [ins, List.filter_append, ha]
+
+theorem updTag_ins {new : TagM} {c : Cat} (m : Bytes) (f : TagM → TagM) (hf : KeepT f) (hm : new.name ≠ m) :
+    (insC new c).updTag m f = insC new (c.updTag m f) := by
+  have hb : (new.name == m) = false := by simpa using hm
+  have hg : KeepT (fun x => if x.name == m then f x else x) := by
+    intro x
+    by_cases hx : (x.name == m) = true
+    · simp only [hx, if_true]; exact hf x
+    · simp [hx]
+  simp only [insC, setTags, Cat.updTag]
+  rw [ins_map hg (by simp [hb])]
+
+theorem mem_of_getTag {c : Cat} {m : Bytes} (h : (c.getTag m).isSome) : ∃ t ∈ c.tags, t.name = m := by
+  unfold Cat.getTag at h
+  cases hf : c.tags.find? (·.name == m) with
+  | none => simp [hf] at h
+  | some t =>
+    exact ⟨t, List.mem_of_find?_eq_some hf, by simpa using List.find?_some hf⟩
+
+theorem tagsFromDirective_sim {new : TagM} {c : Cat} {td : BDir} {ns : List Bytes} (hp : Part c.tags)
+    (hfresh : ∀ t ∈ c.tags, t.name ≠ new.name) (hs : tagsFromDirective c td = .ok ns) :
+    tagsFromDirective (insC new c) td = .ok ns := by
+  have hall := (tagsFromDirective_ok hs).2
+  have hns := (tagsFromDirective_ok hs).1
+  subst hns
+  unfold tagsFromDirective at hs ⊢
+  simp only [fail] at hs ⊢
+  split at hs; · cases hs
+  split at hs; · cases hs
+  split at hs
+  · rename_i h1 h2 h3
+    rw [if_neg h1, if_neg h2, if_pos]
+    rw [List.all_eq_true]
+    intro m hm
+    obtain ⟨t, ht, htd⟩ := hall m hm
+    have hne : new.name ≠ m := by
+      obtain ⟨t', ht', hn'⟩ := mem_of_getTag (c := c) (m := m) (by simp [ht])
+      intro h'; exact hfresh t' ht' (by rw [hn', h'])
+    rw [getTag_ins hp m hne, ht]; exact htd
+  · cases hs
+theorem tfd_bind_sim {new : TagM} {c c₂ : Cat} {td : BDir} {ns : List Bytes} (hp : Part c.tags)
+    (hfresh : ∀ t ∈ c₂.tags, t.name ≠ new.name)
+    (hs : (do let ns ← tagsFromDirective c td; pure (ns, c) : R (List Bytes × Cat)) = .ok (ns, c₂)) :
+    (do let ns ← tagsFromDirective (insC new c) td; pure (ns, insC new c) : R (List Bytes × Cat)) =
+      .ok (ns, insC new c₂) := by
+  obtain ⟨ns', h1, h⟩ := bind_ok hs
+  cases h
+  rw [tagsFromDirective_sim hp hfresh h1]; rfl
+
+theorem tagsFor_sim {new : TagM} {c c₂ : Cat} {kids : List BDir} {anc : List Up} {i : IId} {ns : List Bytes}
+    (hp : Part c.tags) (hfresh : ∀ t ∈ c₂.tags, t.name ≠ new.name)
+    (hs : tagsFor c kids anc i = .ok (ns, c₂)) : tagsFor (insC new c) kids anc i = .ok (ns, insC new c₂) := by
+  revert hs
+  unfold tagsFor
+  dsimp only
+  split
+  · exact tfd_bind_sim hp hfresh
+  split
+  · exact tfd_bind_sim hp hfresh
+  intro hs
+  split at hs
+  · rename_i t ht
+    cases hs
+    have hne : new.name ≠ tagName (pathTagTitle i.path) := by
+      obtain ⟨t', ht', hn'⟩ := mem_of_getTag (c := c) (m := tagName (pathTagTitle i.path)) (by simp [ht])
+      intro h'; exact hfresh t' ht' (by rw [hn', h'])
+    rw [getTag_ins hp _ hne, ht]
+  · rename_i ht
+    cases hs
+    have hne : new.name ≠ tagName (pathTagTitle i.path) := by
+      intro h'
+      exact hfresh ⟨tagName (pathTagTitle i.path), pathTagTitle i.path, false, none, [], []⟩ (by simp) h'.symm
+    rw [getTag_ins hp _ hne, ht]
+    simp only [insC, setTags, ins_append _ (show ({ name := tagName (pathTagTitle i.path), title := pathTagTitle i.path, declared := false } : TagM).declared = false from rfl)]
+
+theorem attachAll_sim {new : TagM} (i : IId) : ∀ (ns : List Bytes) (c : Cat), (∀ m ∈ ns, new.name ≠ m) →
+    attachAll (insC new c) i ns = insC new (attachAll c i ns)
+  | [], c, _ => rfl
+  | m :: r, c, h => by
+    have hk : KeepT (attach i) := by
+      intro x; unfold attach; split <;> exact ⟨rfl, rfl, rfl⟩
+    rw [attachAll, attachAll, updTag_ins m _ hk (h m (List.mem_cons_self ..)),
+      attachAll_sim i r _ (fun m' hm' => h m' (List.mem_cons_of_mem _ hm'))]
+
+theorem attachAll_tags (i : IId) (ns : List Bytes) (c : Cat) :
+    (attachAll c i ns).tags.map (·.name) = c.tags.map (·.name) := by
+  obtain ⟨g, hg, h⟩ := attachAll_keep i ns c
+  rw [h]
+  simp only [List.map_map]
+  congr 1
+  funext x; simp [(hg x).1]
+theorem ok_bind {α β} (a : α) (f : α → R β) : ((Except.ok a : R α) >>= f) = f a := rfl
+
+theorem fresh_of_names {ts ts' : List TagM} {n : Bytes} (h : ts'.map (·.name) = ts.map (·.name))
+    (hf : ∀ t ∈ ts, t.name ≠ n) : ∀ t ∈ ts', t.name ≠ n := by
+  intro t ht
+  have : t.name ∈ ts'.map (·.name) := List.mem_map_of_mem ht
+  rw [h, List.mem_map] at this
+  obtain ⟨t', ht', he⟩ := this
+  rw [← he]; exact hf t' ht'
+
+theorem addHTTPMethod_sim {new : TagM} {d : BDir} {kids : List BDir} {anc : List Up} {c c' : Cat}
+    (hp : Part c.tags) (hfresh : ∀ t ∈ c'.tags, t.name ≠ new.name)
+    (hs : addHTTPMethod d kids anc c = .ok c') : addHTTPMethod d kids anc (insC new c) = .ok (insC new c') := by
+  unfold addHTTPMethod at hs ⊢
+  simp only [fail] at hs ⊢
+  obtain ⟨path, hpath, hs⟩ := bind_ok hs
+  obtain ⟨pp, hpp, hs⟩ := bind_ok hs
+  split at hs; · cases hs
+  rename_i sim hsim
+  obtain ⟨i, hi, hs⟩ := bind_ok hs
+  split at hs; · cases hs
+  rename_i hhas
+  obtain ⟨⟨ns, c₂⟩, ht, hs⟩ := bind_ok hs
+  cases hs
+  have hfresh₂ : ∀ t ∈ c₂.tags, t.name ≠ new.name :=
+    fresh_of_names (attachAll_tags i ns c₂).symm hfresh
+  have hns : ∀ m ∈ ns, new.name ≠ m := by
+    intro m hm
+    obtain ⟨_, _, _, hsome⟩ := tagsFor_ok ht
+    obtain ⟨t, htm, hn⟩ := mem_of_getTag (hsome m hm)
+    intro h'; exact hfresh₂ t htm (by rw [hn, h'])
+  have ht' := tagsFor_sim (new := new) (c := { c with similar := sim }) hp hfresh₂ ht
+  have hsim' : checkSimilar (insC new c).similar pp = some sim := hsim
+  have hhas' : Cat.hasInter { insC new c with similar := sim } i = false := by
+    have : ¬ Cat.hasInter { insC new c with similar := sim } i = true := hhas
+    simpa using this
+  rw [hpath, ok_bind, hpp, ok_bind]
+  simp only [hsim', hi, ok_bind, hhas']
+  have e : ({ insC new c with similar := sim } : Cat) = insC new { c with similar := sim } := rfl
+  rw [e, ht', ok_bind]
+  simp only [attachAll_sim i ns c₂ hns]
+  rfl
+theorem addJsonRpcMethod_sim {new : TagM} {d : BDir} {kids : List BDir} {anc : List Up} {c c' : Cat}
+    (hp : Part c.tags) (hfresh : ∀ t ∈ c'.tags, t.name ≠ new.name)
+    (hs : addJsonRpcMethod d kids anc c = .ok c') :
+    addJsonRpcMethod d kids anc (insC new c) = .ok (insC new c') := by
+  unfold addJsonRpcMethod at hs ⊢
+  simp only [fail] at hs ⊢
+  split at hs; · cases hs
+  split at hs; · cases hs
+  split at hs; · cases hs
+  rename_i h1 _ p r h2
+  obtain ⟨i, hi, hs⟩ := bind_ok hs
+  split at hs; · cases hs
+  rename_i hhas
+  obtain ⟨⟨ns, c₂⟩, ht, hs⟩ := bind_ok hs
+  cases hs
+  have hfresh₂ : ∀ t ∈ c₂.tags, t.name ≠ new.name :=
+    fresh_of_names (attachAll_tags i ns c₂).symm hfresh
+  have hns : ∀ m ∈ ns, new.name ≠ m := by
+    intro m hm
+    obtain ⟨_, _, _, hsome⟩ := tagsFor_ok ht
+    obtain ⟨t, htm, hn⟩ := mem_of_getTag (hsome m hm)
+    intro h'; exact hfresh₂ t htm (by rw [hn, h'])
+  have ht' := tagsFor_sim (new := new) hp hfresh₂ ht
+  have hhas' : ¬ ((insC new c).hasInter i || (insC new c).inters.any fun x => x.iid.text == i.text) = true := hhas
+  rw [if_neg h1]
+  dsimp only
+  rw [if_neg h2, hi, ok_bind, if_neg hhas', ht', ok_bind]
+  simp only [attachAll_sim i ns c₂ hns]
+  rfl
+
+theorem addTags_sim {new : TagM} {d : BDir} {c c' : Cat}
+    (hp : Part c.tags) (hfresh : ∀ t ∈ c'.tags, t.name ≠ new.name)
+    (hs : addTags d c = .ok c') : addTags d (insC new c) = .ok (insC new c') := by
+  unfold addTags at hs ⊢
+  obtain ⟨ns, h1, hs⟩ := bind_ok hs
+  cases hs
+  rw [tagsFromDirective_sim hp hfresh h1]; rfl
+
+theorem addDescription_obliv (d : BDir) (anc : List Up) (h : ∀ p r, anc = p :: r → (p.d.kind == Kind.TAG) = false) :
+    Obliv (addDescription d anc) := by
+  intro ts c
+  unfold addDescription
+  simp only [fail, setTags]
+  ofail
+  ofail
+  ofail
+  ofail
+  ofail
+  rename_i p r
+  have hp := h p r rfl
+  split
+  · osplit
+  split
+  · refine bind_obliv _ _ _ (fun i => ?_)
+    simp only [Cat.getInter, Cat.updInter]
+    osplit
+  split
+  · refine bind_obliv _ _ _ (fun i => ?_)
+    simp only [Cat.getInter, Cat.updInter]
+    osplit
+  simp only [hp]
+  rfl
+theorem addDescription_sim {new : TagM} {d : BDir} {anc : List Up} {c c' : Cat}
+    (hp : Part c.tags) (hfresh : ∀ t ∈ c'.tags, t.name ≠ new.name)
+    (hs : addDescription d anc c = .ok c') : addDescription d anc (insC new c) = .ok (insC new c') := by
+  by_cases htag : ∀ p r, anc = p :: r → (p.d.kind == Kind.TAG) = false
+  · exact obliv_sim (addDescription_obliv d anc htag) new hs
+  · have : ∃ p r, anc = p :: r ∧ p.d.kind = Kind.TAG := by
+      cases anc with
+      | nil => exact absurd (fun p r h => by cases h) htag
+      | cons p r =>
+        refine ⟨p, r, rfl, ?_⟩
+        cases hk : p.d.kind == Kind.TAG with
+        | true => simpa using hk
+        | false => exact absurd (fun p' r' h => by cases h; exact hk) htag
+    obtain ⟨p, r, rfl, hk⟩ := this
+    have e1 : (Kind.TAG == Kind.Info) = false := by decide
+    have e2 : isHTTP Kind.TAG = false := by decide
+    have e3 : (Kind.TAG == Kind.Method) = false := by decide
+    unfold addDescription at hs ⊢
+    simp only [fail, hk, e1, e2, e3] at hs ⊢
+    split at hs; · cases hs
+    rename_i h1
+    rw [if_neg h1]
+    split at hs; · cases hs
+    rename_i b hb
+    split at hs; · cases hs
+    rename_i text htext
+    split at hs; · cases hs
+    rename_i h2
+    rw [if_neg h2]
+    simp only [Bool.false_eq_true, if_false, beq_self_eq_true, if_true] at hs ⊢
+    split at hs; · cases hs
+    rename_i t ht
+    split at hs; · cases hs
+    rename_i h3
+    cases hs
+    have hne : new.name ≠ p.d.param "TagName" := by
+      obtain ⟨t', ht', hn'⟩ := mem_of_getTag (c := c) (m := p.d.param "TagName") (by simp [ht])
+      have hmem : ∃ t'' ∈ (c.updTag (p.d.param "TagName") fun t => { t with descr := some text }).tags,
+          t''.name = t'.name := by
+        refine ⟨_, List.mem_map_of_mem (f := fun x => if x.name == p.d.param "TagName" then { x with descr := some text } else x) ht', ?_⟩
+        split <;> rfl
+      obtain ⟨t'', hm'', hn''⟩ := hmem
+      intro h'; exact hfresh t'' hm'' (by rw [hn'', hn', h'])
+    rw [getTag_ins hp _ hne, ht]
+    simp only [h3, Bool.false_eq_true, if_false]
+    exact congrArg Except.ok (updTag_ins _ _ (fun x => ⟨rfl, rfl, rfl⟩) hne)
+theorem sim_step {banned : List Kind} {new : TagM} {e : Ent} {c c' : Cat}
+    (hp : Part c.tags) (hfresh : ∀ t ∈ c'.tags, t.name ≠ new.name)
+    (hs : step banned e c = .ok c') : step banned e (insC new c) = .ok (insC new c') := by
+  obtain ⟨d, kids, anc⟩ := e
+  unfold step addDirective at hs ⊢
+  simp only [fail] at hs ⊢
+  split at hs; · cases hs
+  rename_i hb
+  rw [if_neg hb]
+  cases hk : d.kind <;> simp only [hk] at hs ⊢
+  case Jsight => exact obliv_sim (addJSight_obliv d) new hs
+  case Info => exact obliv_sim (addInfo_obliv d) new hs
+  case Title => exact obliv_sim (addTitle_obliv d) new hs
+  case Version => exact obliv_sim (addVersion_obliv d) new hs
+  case Description => exact addDescription_sim hp hfresh hs
+  case Server => exact obliv_sim (addServer_obliv d) new hs
+  case BaseURL => exact obliv_sim (addBaseUrl_obliv d anc) new hs
+  case «Type» => exact obliv_sim (addType_obliv d) new hs
+  case URL => exact obliv_sim (addURL_obliv d kids anc) new hs
+  case Get => exact addHTTPMethod_sim hp hfresh hs
+  case Post => exact addHTTPMethod_sim hp hfresh hs
+  case Put => exact addHTTPMethod_sim hp hfresh hs
+  case Patch => exact addHTTPMethod_sim hp hfresh hs
+  case Delete => exact addHTTPMethod_sim hp hfresh hs
+  case Query => exact obliv_sim (addQuery_obliv d anc) new hs
+  case Request => exact obliv_sim (addRequest_obliv d anc) new hs
+  case HTTPResponseCode => exact obliv_sim (addResponse_obliv d anc) new hs
+  case Headers => exact obliv_sim (addHeaders_obliv d anc) new hs
+  case Body => exact obliv_sim (addBody_obliv d anc) new hs
+  case Protocol => exact obliv_sim (addProtocol_obliv d anc) new hs
+  case Method => exact addJsonRpcMethod_sim hp hfresh hs
+  case Params => exact obliv_sim (addRpcSchema_obliv true d anc) new hs
+  case Result => exact obliv_sim (addRpcSchema_obliv false d anc) new hs
+  case Tags => exact addTags_sim hp hfresh hs
+  all_goals (cases hs; rfl)
+
+theorem names_step {banned : List Kind} {e : Ent} {c c' : Cat} (hs : step banned e c = .ok c') :
+    ∀ t ∈ c.tags, ∃ t' ∈ c'.tags, t'.name = t.name := by
+  obtain ⟨extra, g, hg, _, ht⟩ := tags_stepR (step_ok hs).2
+  intro t hm
+  refine ⟨g t, ?_, (hg t).1⟩
+  rw [ht]
+  exact List.mem_map_of_mem (List.mem_append_left _ hm)
+
+theorem fresh_step {banned : List Kind} {e : Ent} {c c' : Cat} {n : Bytes} (hs : step banned e c = .ok c')
+    (hf : ∀ t ∈ c'.tags, t.name ≠ n) : ∀ t ∈ c.tags, t.name ≠ n := by
+  intro t hm
+  obtain ⟨t', hm', hn⟩ := names_step hs t hm
+  rw [← hn]; exact hf t' hm'
+
+theorem sim_run {banned : List Kind} {new : TagM} : ∀ (l : List Ent) (c c' : Cat), Part c.tags →
+    (∀ t ∈ c'.tags, t.name ≠ new.name) → run banned l c = .ok c' →
+    run banned l (insC new c) = .ok (insC new c') ∧ (∀ t ∈ c.tags, t.name ≠ new.name)
+  | [], c, c', _, hf, h => by simp [run] at h ⊢; subst h; exact ⟨rfl, hf⟩
+  | e :: r, c, c', hp, hf, h => by
+    simp only [run] at h ⊢
+    cases hs : step banned e c with
+    | error x => simp [hs] at h
+    | ok c₁ =>
+      simp only [hs] at h
+      have hp₁ : Part c₁.tags := by
+        obtain ⟨extra, g, hg, hex, ht⟩ := tags_stepR (step_ok hs).2
+        rw [ht]; exact Part_step hg hex hp
+      obtain ⟨ih, hf₁⟩ := sim_run r c₁ c' hp₁ hf h
+      rw [sim_step hp hf₁ hs]
+      exact ⟨ih, fresh_step hs hf₁⟩
+theorem ins_all_declared {new : TagM} {ts : List TagM} (h : ∀ t ∈ ts, t.declared = true) : ins new ts = ts ++ [new] := by
+  have h1 : ts.filter (·.declared) = ts := by rw [List.filter_eq_self]; exact h
+  have h2 : ts.filter (fun t => !t.declared) = [] := by
+    rw [List.filter_eq_nil_iff]; intro a ha; simp [h a ha]
+  simp [ins, h1, h2]
+
+theorem compile_add_tag {banned : List Kind} {f : List BTree} {c : Cat} (h : compile banned f = .ok c) (d : BDir)
+    (hk : d.kind = .TAG) (hn : d.param "TagName" ≠ []) (hfresh : ∀ t ∈ c.tags, t.name ≠ d.param "TagName")
+    (hban : d.kind ∉ banned) (hf : f ≠ []) :
+    compile banned (f ++ [.node d []]) = .ok (insC (declTag d) c) := by
+  obtain ⟨c₀, h0, h1, ⟨x, h2⟩, h3, h4, h5, h6, h7⟩ := compile_ok h
+  have hc₀ := collectTags_empty h0
+  have hp₀ : Part c₀.tags := by rw [hc₀]; exact Part_of_all (declTags_all f)
+  obtain ⟨hsim, hfresh₀⟩ := sim_run (new := declTag d) _ c₀ c hp₀ hfresh h4
+  refine compile_of (c₀ := insC (declTag d) c₀) (x := x) ?_ ?_ ?_ ?_ ?_ ?_ ?_ ?_
+  · rw [collectTags_append, h0]
+    have hnone : c₀.getTag (d.param "TagName") = none := by
+      unfold Cat.getTag
+      rw [List.find?_eq_none]
+      intro t ht
+      have := hfresh₀ t ht
+      simpa [declTag] using this
+    have hne : (d.param "TagName").isEmpty = false := by simpa using hn
+    simp only [collectTags, BTree.dir, hk, beq_self_eq_true, if_true, hne, hnone, Option.isSome_none,
+      Bool.false_eq_true, if_false]
+    congr 1
+    simp only [insC, setTags]
+    rw [ins_all_declared (by rw [hc₀]; exact declTags_all f)]
+    rfl
+  · rw [checkTypeNames_append, h1]
+    simp [checkTypeNames, BTree.dir, hk]
+  · rw [pathsForest_append, h2]
+    simp [pathsForest, pathsTree, hk]
+  · intro t' r' he
+    cases f with
+    | nil => exact absurd rfl hf
+    | cons a r => simp at he; exact he.1 ▸ h3 a r rfl
+  · rw [flatAF_append, run_append, hsim]
+    rw [hk] at hban
+    simp [flatAF, flatA, run, step, addDirective, hk, hban]
+  · exact h5
+  · exact h6
+  · exact h7
+/-! ### group B: what a second declaration runs into -/
+
+theorem getElem_flatAF {f : List BTree} {i : Nat} {d : BDir} (h : (flatF f)[i]? = some d) :
+    ∃ e, (flatAF [] f)[i]? = some e ∧ e.d = d := by
+  rw [← flatAF_dirs [] f, List.getElem?_map] at h
+  cases he : (flatAF [] f)[i]? with
+  | none => simp [he] at h
+  | some e => exact ⟨e, rfl, by simpa [he] using h⟩
+
+/-- two entries of a conflicting class at different positions make `compile` fail -/
+theorem compile_conflict {banned : List Kind} {f : List BTree} (E : Ent → Prop) (Mark : Cat → Prop)
+    (hset : ∀ e c c', E e → step banned e c = .ok c' → Mark c')
+    (hkeep : ∀ e c c', Mark c → step banned e c = .ok c' → Mark c')
+    (hclash : ∀ e c c', E e → Mark c → step banned e c ≠ .ok c')
+    {i j : Nat} {e₁ e₂ : Ent} (hij : i ≠ j) (h₁ : (flatAF [] f)[i]? = some e₁) (h₂ : (flatAF [] f)[j]? = some e₂)
+    (E₁ : E e₁) (E₂ : E e₂) : ∀ c, compile banned f ≠ .ok c := by
+  intro c h
+  obtain ⟨c₀, _, _, _, _, hr, _⟩ := compile_ok h
+  rcases Nat.lt_or_gt_of_ne hij with hlt | hgt
+  · exact run_conflict E Mark hset hkeep hclash _ i j e₁ e₂ hlt h₁ h₂ E₁ E₂ c₀ c hr
+  · exact run_conflict E Mark hset hkeep hclash _ j i e₂ e₁ hgt h₂ h₁ E₂ E₁ c₀ c hr
+
+theorem stepR_type {e : Ent} {c c' : Cat} (h : StepR e c c') (hk : e.d.kind = .Type) :
+    (∀ t ∈ c.types, t.name ≠ e.d.param "Name") ∧ ∃ t ∈ c'.types, t.name = e.d.param "Name" := by
+  cases h
+  case type nt _ hn hf => exact ⟨hf, _, List.mem_append_right _ (List.mem_singleton_self _), rfl⟩
+  all_goals simp_all [neutral, isMeth, isHTTP, httpMethods]
+
+theorem stepR_server {e : Ent} {c c' : Cat} (h : StepR e c c') (hk : e.d.kind = .Server) :
+    (∀ t ∈ c.servers, t.name ≠ e.d.param "Name") ∧ ∃ t ∈ c'.servers, t.name = e.d.param "Name" := by
+  cases h
+  case server _ hn hf => exact ⟨hf, _, List.mem_append_right _ (List.mem_singleton_self _), rfl⟩
+  all_goals simp_all [neutral, isMeth, isHTTP, httpMethods]
+
+theorem stepR_url {e : Ent} {c c' : Cat} (h : StepR e c c') (hk : e.d.kind = .URL) :
+    e.d.param "Path" ∉ c.uniqURL ∧ e.d.param "Path" ∈ c'.uniqURL := by
+  cases h
+  case url _ _ hf => exact ⟨hf, List.mem_cons_self ..⟩
+  all_goals simp_all [neutral, isMeth, isHTTP, httpMethods]
+
+theorem stepR_title {e : Ent} {c c' : Cat} (h : StepR e c c') (hk : e.d.kind = .Title) :
+    (∀ i, c.info = some i → i.title = []) ∧ ∃ i, c'.info = some i ∧ i.title ≠ [] := by
+  cases h
+  case title i _ hi ht hp => exact ⟨fun i' h' => by rw [hi] at h'; cases h'; exact ht, _, rfl, hp⟩
+  all_goals simp_all [neutral, isMeth, isHTTP, httpMethods]
+
+theorem stepR_version {e : Ent} {c c' : Cat} (h : StepR e c c') (hk : e.d.kind = .Version) :
+    (∀ i, c.info = some i → i.version = []) ∧ ∃ i, c'.info = some i ∧ i.version ≠ [] := by
+  cases h
+  case version i _ hi ht hp => exact ⟨fun i' h' => by rw [hi] at h'; cases h'; exact ht, _, rfl, hp⟩
+  all_goals simp_all [neutral, isMeth, isHTTP, httpMethods]
+
+theorem stepR_method {e : Ent} {c c' : Cat} (h : StepR e c c') (hk : isMeth e.d.kind = true) :
+    ∃ i, idOf e = .ok i ∧ c.hasInter i = false ∧ c'.hasInter i = true := by
+  cases h
+  case method sim i ns extra g _ hi hh _ _ => exact ⟨i, hi, hh, by simp [Cat.hasInter]⟩
+  case same hn => rw [(neutral_facts hn).2.2.1] at hk; cases hk
+  case inters hn _ => rw [(neutral_facts hn).2.2.1] at hk; cases hk
+  case tagsMap hn _ => rw [(neutral_facts hn).2.2.1] at hk; cases hk
+  case proto hn => rw [(neutral_facts hn).2.2.1] at hk; cases hk
+  all_goals simp_all [isMeth, isHTTP, httpMethods]
+
+/-- what any step preserves -/
+theorem stepR_mono {e : Ent} {c c' : Cat} (h : StepR e c c') :
+    (∀ n, (∃ t ∈ c.types, t.name = n) → ∃ t ∈ c'.types, t.name = n) ∧
+    (∀ n, (∃ t ∈ c.servers, t.name = n) → ∃ t ∈ c'.servers, t.name = n) ∧
+    (∀ p, p ∈ c.uniqURL → p ∈ c'.uniqURL) ∧
+    (∀ i, c.hasInter i = true → c'.hasInter i = true) ∧
+    (∀ i, c.info = some i → ∃ i', c'.info = some i' ∧ (i.title ≠ [] → i'.title ≠ []) ∧
+      (i.version ≠ [] → i'.version ≠ []) ∧ (i.descr.isSome → i'.descr.isSome)) := by
+  have hid : ∀ i, c.info = some i → ∃ i', c.info = some i' ∧ (i.title ≠ [] → i'.title ≠ []) ∧
+      (i.version ≠ [] → i'.version ≠ []) ∧ (i.descr.isSome → i'.descr.isSome) :=
+    fun i hi => ⟨i, hi, id, id, id⟩
+  cases h
+  case same => exact ⟨fun _ h => h, fun _ h => h, fun _ h => h, fun _ h => h, hid⟩
+  case jsight => exact ⟨fun _ h => h, fun _ h => h, fun _ h => h, fun _ h => h, hid⟩
+  case proto => exact ⟨fun _ h => h, fun _ h => h, fun _ h => h, fun _ h => h, hid⟩
+  case tagsMap => exact ⟨fun _ h => h, fun _ h => h, fun _ h => h, fun _ h => h, hid⟩
+  case info _ hn => exact ⟨fun _ h => h, fun _ h => h, fun _ h => h, fun _ h => h, fun i hi => by simp [hn] at hi⟩
+  case title i _ hi ht hp =>
+    refine ⟨fun _ h => h, fun _ h => h, fun _ h => h, fun _ h => h, fun i' hi' => ?_⟩
+    rw [hi] at hi'; cases hi'
+    exact ⟨_, rfl, fun _ => hp, id, id⟩
+  case version i _ hi ht hp =>
+    refine ⟨fun _ h => h, fun _ h => h, fun _ h => h, fun _ h => h, fun i' hi' => ?_⟩
+    rw [hi] at hi'; cases hi'
+    exact ⟨_, rfl, id, fun _ => hp, id⟩
+  case descrInfo i text _ _ hi hd =>
+    refine ⟨fun _ h => h, fun _ h => h, fun _ h => h, fun _ h => h, fun i' hi' => ?_⟩
+    rw [hi] at hi'; cases hi'
+    exact ⟨_, rfl, id, id, fun _ => rfl⟩
+  case inters g _ hg =>
+    refine ⟨fun _ h => h, fun _ h => h, fun _ h => h, fun i h => ?_, hid⟩
+    simp only [Cat.hasInter, List.any_eq_true, List.mem_map] at h ⊢
+    obtain ⟨x, hx, hxi⟩ := h
+    exact ⟨g x, ⟨x, hx, rfl⟩, by rw [(hg x).1]; exact hxi⟩
+  case server =>
+    exact ⟨fun _ h => h, fun n ⟨t, ht, hn⟩ => ⟨t, List.mem_append_left _ ht, hn⟩, fun _ h => h, fun _ h => h, hid⟩
+  case baseUrl g _ hg =>
+    refine ⟨fun _ h => h, fun n ⟨t, ht, hn⟩ => ⟨g t, List.mem_map_of_mem ht, by rw [(hg t).1]; exact hn⟩,
+      fun _ h => h, fun _ h => h, hid⟩
+  case type =>
+    exact ⟨fun n ⟨t, ht, hn⟩ => ⟨t, List.mem_append_left _ ht, hn⟩, fun _ h => h, fun _ h => h, fun _ h => h, hid⟩
+  case url => exact ⟨fun _ h => h, fun _ h => h, fun _ h => List.mem_cons_of_mem _ h, fun _ h => h, hid⟩
+  case method =>
+    refine ⟨fun _ h => h, fun _ h => h, fun _ h => h, fun i h => ?_, hid⟩
+    simp only [Cat.hasInter, List.any_append, Bool.or_eq_true] at h ⊢
+    exact .inl h
+theorem dup_type {banned : List Kind} {f : List BTree} {i j : Nat} {d₁ d₂ : BDir} (hij : i ≠ j)
+    (h₁ : (flatF f)[i]? = some d₁) (h₂ : (flatF f)[j]? = some d₂) (k₁ : d₁.kind = .Type) (k₂ : d₂.kind = .Type)
+    (hn : d₁.param "Name" = d₂.param "Name") : ∀ c, compile banned f ≠ .ok c := by
+  obtain ⟨e₁, he₁, rfl⟩ := getElem_flatAF h₁
+  obtain ⟨e₂, he₂, rfl⟩ := getElem_flatAF h₂
+  refine compile_conflict (fun e => e.d.kind = .Type ∧ e.d.param "Name" = e₁.d.param "Name")
+    (fun c => ∃ t ∈ c.types, t.name = e₁.d.param "Name") ?_ ?_ ?_ hij he₁ he₂ ⟨k₁, rfl⟩ ⟨k₂, hn.symm⟩
+  · intro e c c' ⟨hk, hp⟩ hs
+    rw [← hp]; exact (stepR_type (step_ok hs).2 hk).2
+  · intro e c c' hm hs
+    exact (stepR_mono (step_ok hs).2).1 _ hm
+  · intro e c c' ⟨hk, hp⟩ ⟨t, ht, hn⟩ hs
+    exact (stepR_type (step_ok hs).2 hk).1 t ht (by rw [hn, hp])
+
+theorem dup_server {banned : List Kind} {f : List BTree} {i j : Nat} {d₁ d₂ : BDir} (hij : i ≠ j)
+    (h₁ : (flatF f)[i]? = some d₁) (h₂ : (flatF f)[j]? = some d₂) (k₁ : d₁.kind = .Server) (k₂ : d₂.kind = .Server)
+    (hn : d₁.param "Name" = d₂.param "Name") : ∀ c, compile banned f ≠ .ok c := by
+  obtain ⟨e₁, he₁, rfl⟩ := getElem_flatAF h₁
+  obtain ⟨e₂, he₂, rfl⟩ := getElem_flatAF h₂
+  refine compile_conflict (fun e => e.d.kind = .Server ∧ e.d.param "Name" = e₁.d.param "Name")
+    (fun c => ∃ t ∈ c.servers, t.name = e₁.d.param "Name") ?_ ?_ ?_ hij he₁ he₂ ⟨k₁, rfl⟩ ⟨k₂, hn.symm⟩
+  · intro e c c' ⟨hk, hp⟩ hs
+    rw [← hp]; exact (stepR_server (step_ok hs).2 hk).2
+  · intro e c c' hm hs
+    exact (stepR_mono (step_ok hs).2).2.1 _ hm
+  · intro e c c' ⟨hk, hp⟩ ⟨t, ht, hn⟩ hs
+    exact (stepR_server (step_ok hs).2 hk).1 t ht (by rw [hn, hp])
+
+theorem dup_url {banned : List Kind} {f : List BTree} {i j : Nat} {d₁ d₂ : BDir} (hij : i ≠ j)
+    (h₁ : (flatF f)[i]? = some d₁) (h₂ : (flatF f)[j]? = some d₂) (k₁ : d₁.kind = .URL) (k₂ : d₂.kind = .URL)
+    (hn : d₁.param "Path" = d₂.param "Path") : ∀ c, compile banned f ≠ .ok c := by
+  obtain ⟨e₁, he₁, rfl⟩ := getElem_flatAF h₁
+  obtain ⟨e₂, he₂, rfl⟩ := getElem_flatAF h₂
+  refine compile_conflict (fun e => e.d.kind = .URL ∧ e.d.param "Path" = e₁.d.param "Path")
+    (fun c => e₁.d.param "Path" ∈ c.uniqURL) ?_ ?_ ?_ hij he₁ he₂ ⟨k₁, rfl⟩ ⟨k₂, hn.symm⟩
+  · intro e c c' ⟨hk, hp⟩ hs
+    rw [← hp]; exact (stepR_url (step_ok hs).2 hk).2
+  · intro e c c' hm hs
+    exact (stepR_mono (step_ok hs).2).2.2.1 _ hm
+  · intro e c c' ⟨hk, hp⟩ hm hs
+    exact (stepR_url (step_ok hs).2 hk).1 (by rw [hp]; exact hm)
+
+theorem dup_title {banned : List Kind} {f : List BTree} {i j : Nat} {d₁ d₂ : BDir} (hij : i ≠ j)
+    (h₁ : (flatF f)[i]? = some d₁) (h₂ : (flatF f)[j]? = some d₂) (k₁ : d₁.kind = .Title) (k₂ : d₂.kind = .Title) :
+    ∀ c, compile banned f ≠ .ok c := by
+  obtain ⟨e₁, he₁, rfl⟩ := getElem_flatAF h₁
+  obtain ⟨e₂, he₂, rfl⟩ := getElem_flatAF h₂
+  refine compile_conflict (fun e => e.d.kind = .Title)
+    (fun c => ∃ i, c.info = some i ∧ i.title ≠ []) ?_ ?_ ?_ hij he₁ he₂ k₁ k₂
+  · intro e c c' hk hs
+    exact (stepR_title (step_ok hs).2 hk).2
+  · intro e c c' ⟨i, hi, ht⟩ hs
+    obtain ⟨i', hi', h1, _⟩ := (stepR_mono (step_ok hs).2).2.2.2.2 i hi
+    exact ⟨i', hi', h1 ht⟩
+  · intro e c c' hk ⟨i, hi, ht⟩ hs
+    exact ht ((stepR_title (step_ok hs).2 hk).1 i hi)
+
+theorem dup_version {banned : List Kind} {f : List BTree} {i j : Nat} {d₁ d₂ : BDir} (hij : i ≠ j)
+    (h₁ : (flatF f)[i]? = some d₁) (h₂ : (flatF f)[j]? = some d₂) (k₁ : d₁.kind = .Version)
+    (k₂ : d₂.kind = .Version) : ∀ c, compile banned f ≠ .ok c := by
+  obtain ⟨e₁, he₁, rfl⟩ := getElem_flatAF h₁
+  obtain ⟨e₂, he₂, rfl⟩ := getElem_flatAF h₂
+  refine compile_conflict (fun e => e.d.kind = .Version)
+    (fun c => ∃ i, c.info = some i ∧ i.version ≠ []) ?_ ?_ ?_ hij he₁ he₂ k₁ k₂
+  · intro e c c' hk hs
+    exact (stepR_version (step_ok hs).2 hk).2
+  · intro e c c' ⟨i, hi, ht⟩ hs
+    obtain ⟨i', hi', _, h2, _⟩ := (stepR_mono (step_ok hs).2).2.2.2.2 i hi
+    exact ⟨i', hi', h2 ht⟩
+  · intro e c c' hk ⟨i, hi, ht⟩ hs
+    exact ht ((stepR_version (step_ok hs).2 hk).1 i hi)
+
+theorem dup_method {banned : List Kind} {f : List BTree} {i j : Nat} {e₁ e₂ : Ent} {x : IId} (hij : i ≠ j)
+    (h₁ : (flatAF [] f)[i]? = some e₁) (h₂ : (flatAF [] f)[j]? = some e₂)
+    (k₁ : isMeth e₁.d.kind = true) (k₂ : isMeth e₂.d.kind = true) (i₁ : idOf e₁ = .ok x) (i₂ : idOf e₂ = .ok x) :
+    ∀ c, compile banned f ≠ .ok c := by
+  refine compile_conflict (fun e => isMeth e.d.kind = true ∧ idOf e = .ok x)
+    (fun c => c.hasInter x = true) ?_ ?_ ?_ hij h₁ h₂ ⟨k₁, i₁⟩ ⟨k₂, i₂⟩
+  · intro e c c' ⟨hk, hi⟩ hs
+    obtain ⟨y, hy, _, h⟩ := stepR_method (step_ok hs).2 hk
+    rw [hi] at hy; cases hy; exact h
+  · intro e c c' hm hs
+    exact (stepR_mono (step_ok hs).2).2.2.2.1 _ hm
+  · intro e c c' ⟨hk, hi⟩ hm hs
+    obtain ⟨y, hy, h, _⟩ := stepR_method (step_ok hs).2 hk
+    rw [hi] at hy; cases hy; rw [hm] at h; cases h
+
+/-- the message of the second method directive (when its earlier checks pass) -/
+theorem addHTTPMethod_defined {d : BDir} {kids : List BDir} {anc : List Up} {c : Cat} {i : IId} {path : Bytes}
+    {pp sim : List (Bytes × Bytes)} (hpath : pathChain (d :: anc.map (·.d)) = .ok path)
+    (hpp : checkedParams d path = .ok pp) (hsim : checkSimilar c.similar pp = some sim)
+    (hi : httpIdOf (d :: anc.map (·.d)) = .ok i) (hhas : c.hasInter i = true) :
+    addHTTPMethod d kids anc c = .error ⟨d.id, .methodDefined⟩ := by
+  have hhas' : Cat.hasInter { c with similar := sim } i = true := hhas
+  unfold addHTTPMethod
+  simp only [hpath, liftAt, ok_bind, hpp, hsim, hi, hhas', if_true, fail]
+theorem step_description {banned : List Kind} {e : Ent} {c c' : Cat} (hk : e.d.kind = .Description)
+    (hs : step banned e c = .ok c') : addDescription e.d e.anc c = .ok c' := by
+  unfold step addDirective at hs
+  simp only [fail] at hs
+  split at hs; · cases hs
+  simpa only [hk] using hs
+
+/-- an entry whose parent is an INFO directive -/
+def underInfo (e : Ent) : Prop := ∃ p r, e.anc = p :: r ∧ p.d.kind = .Info
+
+theorem addDescription_info {d : BDir} {anc : List Up} {c c' : Cat} (hu : ∃ p r, anc = p :: r ∧ p.d.kind = .Info)
+    (hs : addDescription d anc c = .ok c') :
+    (∀ i, c.info = some i → i.descr = none) ∧ ∃ i, c'.info = some i ∧ i.descr.isSome := by
+  obtain ⟨p, r, rfl, hk⟩ := hu
+  unfold addDescription at hs
+  simp only [fail, hk, beq_self_eq_true, if_true] at hs
+  split at hs; · cases hs
+  split at hs; · cases hs
+  split at hs; · cases hs
+  split at hs; · cases hs
+  split at hs; · cases hs
+  split at hs; · cases hs
+  rename_i i hi hd
+  cases hs
+  refine ⟨fun i' hi' => ?_, _, rfl, rfl⟩
+  rw [hi] at hi'; cases hi'
+  simpa using hd
+
+theorem dup_info_description {banned : List Kind} {f : List BTree} {i j : Nat} {e₁ e₂ : Ent} (hij : i ≠ j)
+    (h₁ : (flatAF [] f)[i]? = some e₁) (h₂ : (flatAF [] f)[j]? = some e₂)
+    (k₁ : e₁.d.kind = .Description) (k₂ : e₂.d.kind = .Description) (u₁ : underInfo e₁) (u₂ : underInfo e₂) :
+    ∀ c, compile banned f ≠ .ok c := by
+  refine compile_conflict (fun e => e.d.kind = .Description ∧ underInfo e)
+    (fun c => ∃ i, c.info = some i ∧ i.descr.isSome) ?_ ?_ ?_ hij h₁ h₂ ⟨k₁, u₁⟩ ⟨k₂, u₂⟩
+  · intro e c c' ⟨hk, hu⟩ hs
+    exact (addDescription_info hu (step_description hk hs)).2
+  · intro e c c' ⟨i, hi, ht⟩ hs
+    obtain ⟨i', hi', _, _, h3⟩ := (stepR_mono (step_ok hs).2).2.2.2.2 i hi
+    exact ⟨i', hi', h3 ht⟩
+  · intro e c c' ⟨hk, hu⟩ ⟨i, hi, ht⟩ hs
+    have := (addDescription_info hu (step_description hk hs)).1 i hi
+    rw [this] at ht; cases ht
+
+/-! ### required parameters -/
+
+/-- the required named parameter of a directive kind (checked by its handler wherever the directive stands) -/
+def requiredParam : Kind → Option String
+  | .Jsight => some "Version"
+  | .Title => some "Title"
+  | .Version => some "Version"
+  | .Server => some "Name"
+  | .BaseURL => some "Path"
+  | .Type => some "Name"
+  | .Protocol => some "ProtocolName"
+  | .Method => some "MethodName"
+  | _ => none
+
+theorem step_missing {banned : List Kind} {e : Ent} {p : String} (hr : requiredParam e.d.kind = some p)
+    (hm : e.d.param p = []) : ∀ c c', step banned e c ≠ .ok c' := by
+  intro c c' hs
+  obtain ⟨d, kids, anc⟩ := e
+  unfold step addDirective at hs
+  simp only [fail] at hs
+  split at hs; · cases hs
+  cases hk : d.kind <;> simp only [hk, requiredParam] at hr hs <;> try (cases hr; done)
+  all_goals
+    cases hr
+    simp only at hm
+    first
+    | (unfold addJSight at hs; simp [hm, fail] at hs)
+    | (unfold addTitle at hs; simp [hm, fail] at hs)
+    | (unfold addVersion at hs; simp [hm, fail] at hs)
+    | (unfold addServer at hs; simp [hm, fail] at hs)
+    | (unfold addBaseUrl at hs; simp [hm, fail] at hs)
+    | (unfold addType at hs; simp [hm, fail] at hs)
+    | (unfold addProtocol at hs; simp only [hm, fail] at hs; split at hs <;> simp at hs)
+    | (unfold addJsonRpcMethod at hs; simp [hm, fail] at hs)
+
+theorem missing_required {banned : List Kind} {f : List BTree} {d : BDir} {p : String} (hd : d ∈ flatF f)
+    (hr : requiredParam d.kind = some p) (hm : d.param p = []) : ∀ c, compile banned f ≠ .ok c := by
+  intro c h
+  obtain ⟨c₀, _, _, _, _, hrun, _⟩ := compile_ok h
+  rw [← flatAF_dirs [] f, List.mem_map] at hd
+  obtain ⟨e, he, rfl⟩ := hd
+  exact run_fails_of_mem (fun _ => True) _ (fun _ _ _ _ _ _ => trivial) e he
+    (fun c c' _ => step_missing hr hm c c') c₀ c trivial hrun
+/-! ### top-level TAG directives -/
+
+theorem collectTags_missing : ∀ (f : List BTree) (t : BTree), t ∈ f → t.dir.kind = .TAG → t.dir.param "TagName" = [] →
+    ∀ c c', collectTags f c ≠ .ok c'
+  | [], _, hm, _, _, _, _, _ => by cases hm
+  | a :: r, t, hm, hk, hn, c, c', h => by
+    unfold collectTags at h
+    simp only [fail] at h
+    cases hm with
+    | head => simp [hk, hn] at h
+    | tail _ hm' =>
+      split at h
+      · split at h; · cases h
+        split at h; · cases h
+        exact collectTags_missing r t hm' hk hn _ _ h
+      · exact collectTags_missing r t hm' hk hn _ _ h
+
+theorem collectTags_has : ∀ (f : List BTree) (t : BTree), t ∈ f → t.dir.kind = .TAG →
+    ∀ c c', (c.getTag (t.dir.param "TagName")).isSome → collectTags f c ≠ .ok c'
+  | [], _, hm, _, _, _, _, _ => by cases hm
+  | a :: r, t, hm, hk, c, c', hg, h => by
+    unfold collectTags at h
+    simp only [fail] at h
+    have keep : ∀ x : TagM, ({ c with tags := c.tags ++ [x] } : Cat).getTag (t.dir.param "TagName") |>.isSome := by
+      intro x
+      unfold Cat.getTag at hg ⊢
+      simp only [List.find?_append]
+      cases hf : c.tags.find? (·.name == t.dir.param "TagName") with
+      | none => simp [hf] at hg
+      | some y => simp
+    cases hm with
+    | head => simp [hk, hg] at h; split at h <;> cases h
+    | tail _ hm' =>
+      split at h
+      · split at h; · cases h
+        split at h; · cases h
+        exact collectTags_has r t hm' hk _ _ (keep _) h
+      · exact collectTags_has r t hm' hk _ _ hg h
+
+theorem collectTags_dup : ∀ (f : List BTree) (i j : Nat) (t₁ t₂ : BTree), i < j → f[i]? = some t₁ → f[j]? = some t₂ →
+    t₁.dir.kind = .TAG → t₂.dir.kind = .TAG → t₁.dir.param "TagName" = t₂.dir.param "TagName" →
+    ∀ c c', collectTags f c ≠ .ok c'
+  | [], i, j, t₁, t₂, _, h₁, _, _, _, _, _, _, _ => by simp at h₁
+  | a :: r, i, j, t₁, t₂, hij, h₁, h₂, k₁, k₂, hn, c, c', h => by
+    cases j with
+    | zero => omega
+    | succ j =>
+      simp only [List.getElem?_cons_succ] at h₂
+      unfold collectTags at h
+      simp only [fail] at h
+      cases i with
+      | zero =>
+        simp only [List.getElem?_cons_zero, Option.some.injEq] at h₁
+        subst h₁
+        simp only [k₁, beq_self_eq_true, if_true] at h
+        split at h; · cases h
+        split at h; · cases h
+        refine collectTags_has r t₂ (List.mem_of_getElem? h₂) k₂ _ _ ?_ h
+        rw [← hn]
+        simp [Cat.getTag, List.find?_append]
+      | succ i =>
+        simp only [List.getElem?_cons_succ] at h₁
+        split at h
+        · split at h; · cases h
+          split at h; · cases h
+          exact collectTags_dup r i j t₁ t₂ (by omega) h₁ h₂ k₁ k₂ hn _ _ h
+        · exact collectTags_dup r i j t₁ t₂ (by omega) h₁ h₂ k₁ k₂ hn _ _ h
+
+/-! ### `Tags` directives name declared tags -/
+
+theorem step_tags {banned : List Kind} {e : Ent} {c c' : Cat} (hk : e.d.kind = .Tags)
+    (hs : step banned e c = .ok c') : addTags e.d c = .ok c' := by
+  unfold step addDirective at hs
+  simp only [fail] at hs
+  split at hs; · cases hs
+  simpa only [hk] using hs
+
+theorem undeclared_tag {banned : List Kind} {f : List BTree} {d : BDir} {n : Bytes} (hd : d ∈ flatF f)
+    (hk : d.kind = .Tags) (hn : n ∈ d.unnamed) (hno : ∀ t ∈ declTags f, t.name ≠ n) :
+    ∀ c, compile banned f ≠ .ok c := by
+  intro c h
+  obtain ⟨c₀, h0, _, _, _, hrun, _⟩ := compile_ok h
+  rw [← flatAF_dirs [] f, List.mem_map] at hd
+  obtain ⟨e, he, rfl⟩ := hd
+  refine run_fails_of_mem (fun c => ∀ t ∈ c.tags, t.declared = true → t.name ≠ n) _ ?_ e he ?_ c₀ c ?_ hrun
+  · intro e' _ c₁ c₂ hj hs
+    obtain ⟨extra, g, hg, hex, ht⟩ := tags_stepR (step_ok hs).2
+    intro t htm htd
+    rw [ht, List.mem_map] at htm
+    obtain ⟨t', ht', rfl⟩ := htm
+    rw [(hg t').2.2] at htd
+    rw [(hg t').1]
+    rcases List.mem_append.mp ht' with h' | h'
+    · exact hj t' h' htd
+    · rw [hex t' h'] at htd; cases htd
+  · intro c₁ c₂ hj hs
+    have := step_tags hk hs
+    unfold addTags at this
+    obtain ⟨ns, h1, _⟩ := bind_ok this
+    obtain ⟨hns, hall⟩ := tagsFromDirective_ok h1
+    subst hns
+    obtain ⟨t, ht, htd⟩ := hall n hn
+    have hmem := List.mem_of_find?_eq_some ht
+    have hname : t.name = n := by simpa using List.find?_some ht
+    exact hj t hmem htd hname
+  · rw [collectTags_empty h0]
+    intro t ht _
+    exact hno t ht
 end JSight.C04B
